@@ -101,6 +101,28 @@ func (e *exec) wideOp(toks []string) string {
 			by[i] = c.GetByIndex(i)
 		}
 		return fmt.Sprintf("first=%s type=%d byidx=%s nilsize=%d", first, c.Type(), e.slots(by), (*types.Commit)(nil).Size())
+	case "verifynil":
+		if e.valset == nil {
+			return "dead"
+		}
+		c, _ := hx.Arg(toks, "chain")
+		b, _ := hx.Arg(toks, "bid")
+		v := "ok"
+		if err := e.valset.VerifyCommit(string(hx.UnHex(c)), parseBid(b).real(), 5, nil); err != nil {
+			v = "err=other"
+			if containsAny(err.Error(), "nil commit") {
+				v = "err=nil"
+			}
+		}
+		a := "ok"
+		if tryPanics(func() {
+			if err := e.valset.VerifyCommitAny(string(hx.UnHex(c)), parseBid(b).real(), 5, nil); err != nil {
+				a = "err"
+			}
+		}) {
+			a = "panic"
+		}
+		return fmt.Sprintf("verify=%s any=%s", v, a)
 	case "nilset":
 		var vs *types.VoteSet
 		_, has := vs.TwoThirdsMajority()
